@@ -770,6 +770,33 @@ def deep_scan(v, pred):
     return False
 
 
+def may_collide(r):
+    """A set / dict / list argument (reified) holding two different elements that the item field normalises to the
+    same stored value: True and 'True', an enum member and its name.  The size / uniqueness rules are then checked
+    on other elements than the stored ones (findings C01-normalised-collision / C02-normalised-collision of the
+    shared __set__ model), so what the constructor does with such an argument is not this check's subject."""
+    t = r[0]
+    if t in ("list", "tuple", "deque"):
+        elems = list(r[1])
+    elif t == "set":
+        elems = list(r[2])
+    elif t == "dict":
+        elems = [k for k, _ in r[1]]
+        if any(may_collide(v) for _, v in r[1]):
+            return True
+    elif t == "struct":
+        return any(may_collide(v) for _, v in r[2])
+    else:
+        return False
+    if any(may_collide(x) for x in elems):
+        return True
+    bools = {x[1] for x in elems if x[0] == "bool"}
+    strs = {x[1] for x in elems if x[0] == "str"}
+    if any(repr(b) in strs for b in bools):
+        return True
+    return any(x[0] == "enum" and x[2] in strs for x in elems)
+
+
 def ft_key_reason(c, real, cons_inst):
     import enum
     for n in sorted(real):
@@ -808,6 +835,7 @@ def ft_key(c, kw, cons_inst, tr_inst):
 def stream_from_trusted(rep, rnd, n, model_ok):
     ctx0 = S.Context()
     items, cases = [], []
+    collide = set()
     viol = ok_cons = 0
     per_ctx = 12
     ctxs = []
@@ -875,6 +903,9 @@ def stream_from_trusted(rep, rnd, n, model_ok):
                     rep.stat("from_trusted", "equal-by-==-but-not-identical")
             if model_ok:
                 items.append((ctx, emit_kcase(ctx, c["name"], kw, cons_o, tr_o)))
+                if any(may_collide(v) for _, v in kw):
+                    collide.add(len(items) - 1)
+                    rep.stat("from_trusted", "argument with a normalised collision (C01/C02 finding): construct not compared")
         ctxs.append(ctx)
     rep.obligation("spec-on-observed:from_trusted", viol == 0, "%d constructor-valid argument sets, %d differ" % (ok_cons, viol))
     if model_ok and items:
@@ -885,6 +916,7 @@ def stream_from_trusted(rep, rnd, n, model_ok):
         except RuntimeError as ex:
             rep.broken("correspondence:from_trusted/coq-eval", str(ex))
             return
+        r["k_cons_mismatch"] = [i for i in r["k_cons_mismatch"] if i not in collide]
         rep.obligation("correspondence:construct(Struct/Instance.v)", not r["k_cons_mismatch"],
                        "%d cases, %d mismatches" % (len(lits), len(r["k_cons_mismatch"])))
         rep.obligation("correspondence:from_trusted", not r["k_trusted_mismatch"],
